@@ -511,3 +511,146 @@ func ruleHNSWNeighbourTable(r *Run, rule string) {
 	r.Check(len(bad) == 0, rule, "hnsw:neighbours:table", site, fmt.Sprintf("neighbour handling agrees with the specification in all %d states of (VISITED, FULL, CLOSER, DELETED, OVER)", states),
 		"neighbour handling differs from `unvisited ⇒ mark; explore ⇔ ¬full ∨ closer; report ⇔ explored ∧ ¬deleted; evict ⇔ reported ∧ over`: "+truncList(bad, 3))
 }
+
+// ruleHNSWEdgeBudget: in the insertion routine the number of edges a vertex may keep on a layer is decided per layer:
+// 2·M on layer 0, M above. The rule follows every path through one iteration of the layer loop to the neighbour
+// selection (and to the pruning call) and reads the budget handed over on that path; the test that doubles it must be a
+// test of that loop's own layer counter. A budget computed once from the new node's level gives a vertex of level ≥ 1
+// only M edges on the bottom layer: its neighbours prune the back links of late, far-away vertices, which then have no
+// in-edge on layer 0 and are never found.
+func ruleHNSWEdgeBudget(r *Run, rule string) {
+	w := r.W
+	r.Doc(rule, "a vertex gets the upper-layer edge budget M on the bottom layer (or 2·M above): back links are pruned away and vertices become unreachable")
+	ins := hnswFn(w, "insert")
+	sel := hnswFn(w, "select")
+	prune := hnswFn(w, "prune")
+	if ins == nil || sel == nil {
+		r.Unres(rule, "hnsw:budget", "insert / select helpers not found by role")
+		return
+	}
+	name := w.Name(ins)
+	r.Analysed(name)
+	c := NewCanon(w)
+	loops := loopsOf(ins)
+	type site struct {
+		call ssa.Instruction
+		arg  ssa.Value
+		what string
+	}
+	var sites []site
+	for _, call := range callsIn(ins, func(cc *ssa.CallCommon) bool { return staticCallee(cc) == sel }) {
+		args := call.Common().Args
+		sites = append(sites, site{call, args[len(args)-1], "selection"})
+	}
+	if prune != nil {
+		pM := pruneBoundParam(prune)
+		var pi int
+		fmt.Sscanf(pM, "P%d", &pi)
+		for _, call := range callsIn(ins, func(cc *ssa.CallCommon) bool { return staticCallee(cc) == prune }) {
+			if pi < len(call.Common().Args) {
+				sites = append(sites, site{call, call.Common().Args[pi], "pruning"})
+			}
+		}
+	}
+	if len(sites) == 0 {
+		r.Und(rule, "hnsw:budget", w.Pos(ins.Pos())+" "+name, "the insertion routine calls neither the selection nor the pruning helper directly")
+		return
+	}
+	for i, st := range sites {
+		key := fmt.Sprintf("hnsw:budget:%s#%d", st.what, i)
+		site := w.InstrPos(st.call) + " " + name
+		// the layer loop: the outermost loop of the routine that contains the call and whose counter is the layer handed to
+		// the helpers — here: the outermost loop containing the call
+		var loop *Loop
+		for _, l := range loops {
+			if l.Blocks[st.call.Block()] && (loop == nil || len(l.Blocks) > len(loop.Blocks)) {
+				loop = l
+			}
+		}
+		if loop == nil {
+			r.Bad(rule, key, site, "the "+st.what+" is not inside a loop over the layers")
+			continue
+		}
+		// the loop's counters: phis of the header
+		counter := map[ssa.Value]bool{}
+		for _, in := range loop.Header.Instrs {
+			if ph, ok := in.(*ssa.Phi); ok {
+				counter[ph] = true
+			}
+		}
+		classify := func(cond ssa.Value) (string, bool) {
+			bo, ok := cond.(*ssa.BinOp)
+			if !ok {
+				return "", false
+			}
+			x, y := bo.X, bo.Y
+			if isZeroConst(x) {
+				x, y = y, x
+			}
+			if !isZeroConst(y) || !counter[x] {
+				// lc < 1 / lc <= 0 / lc >= 1 …
+				if k, isK := y.(*ssa.Const); isK && counter[x] && k.Value != nil && k.Value.ExactString() == "1" {
+					switch bo.Op {
+					case token.LSS:
+						return "LC0", false
+					case token.GEQ:
+						return "LC0", true
+					}
+				}
+				return "", false
+			}
+			switch bo.Op {
+			case token.EQL, token.LEQ:
+				return "LC0", false
+			case token.NEQ, token.GTR:
+				return "LC0", true
+			}
+			return "", false
+		}
+		paths, trunc := enumPaths(loop.Header, walkCfg{Stop: func(b *ssa.BasicBlock) bool { return b == st.call.Block() }, MaxVisits: 1, MaxPaths: 4000})
+		if trunc {
+			r.Und(rule, key, site, "too many paths through one layer iteration")
+			continue
+		}
+		var bad []string
+		n := 0
+		for _, pth := range paths {
+			if pth.End != EndStop || !pth.Feasible() {
+				continue
+			}
+			row := classifyPath(pth, classify)
+			if row.Conflict {
+				continue
+			}
+			n++
+			v := resolveOnPath(pth, st.arg)
+			got := ""
+			switch s := c.S(v); {
+			case s == "P0.M":
+				got = "M"
+			case s == "(P0.M*c(2))" || s == "(c(2)*P0.M)" || s == "(P0.M+P0.M)" || s == "(P0.M<<c(1))":
+				got = "2M"
+			default:
+				got = "other:" + short(s, 60)
+			}
+			lc0, decided := row.Atoms["LC0"]
+			switch {
+			case !decided:
+				bad = append(bad, "the budget "+got+" is chosen without a test of this loop's layer counter against 0")
+			case lc0 && got != "2M":
+				bad = append(bad, "layer 0 gets "+got+", expected 2·M")
+			case !lc0 && got != "M":
+				bad = append(bad, "a layer above 0 gets "+got+", expected M")
+			}
+		}
+		if n == 0 {
+			r.Und(rule, key, site, "no path through a layer iteration reaches the "+st.what)
+			continue
+		}
+		if len(bad) > 0 {
+			r.Bad(rule, key, site, "edge budget of the "+st.what+": "+truncList(dedup(bad), 3))
+		} else {
+			r.Ok(rule, key, site, fmt.Sprintf("%d ways through a layer iteration: the %s is given 2·M exactly when the loop's layer counter is 0, M otherwise", n, st.what))
+		}
+	}
+}
